@@ -11,7 +11,7 @@ COMMON_TRUST = [
     'translator /verif/translate/utils2lean + gen_tie.py (Go utils.go -> Lean, re-run every check)',
     'correspondence harness /verif/harness + compiled driver (differential testing, labelled as such)',
     'Lean compiler/runtime only for the executable driver, never for a theorem',
-    'SHA-512/256: theorems take collision-freeness as a hypothesis; the Lean implementation is validated against Go on every compared hash',
+    'SHA-512/256 is not reasoned about: the honest-behaviour theorems assume NZ (the parent hash is never the all-zero hash) and, where the code keys by hash, the finite NodesDistinct/DistinctRun; soundness (C03) is proved in collision-extracting form for every hash type (no hypothesis) next to the idealised CR form; CR is machine-checked to be impossible for a 32-byte hash (cr_hashBytesOK_incompatible); the Lean implementation of SHA is an executable stand-in validated against Go on every compared hash',
 ]
 
 C09_THEOREMS = ['inv_new', 'inv_fromRootsAt', 'inv_fromRoots', 'getHash_true', 'getHash_none', 'getLeafPosition_some',
@@ -83,7 +83,7 @@ PROPS = {
                      'UtreexoVerif.Proofs.SpecNodes.nodes_functional', 'UtreexoVerif.Proofs.SpecNodes.nodeAt_children'],
         'rule': 'adversarial (hashes, targets, proof) triples against reachable states: exhaustive over a small alphabet for forests <= 4 (quick) / 6 (thorough) leaves, structured mutation of honest proofs for larger ones; every verifier result compared with the Lean model of calculateHashes/Verify; every accepted input checked against the specification forest (soundness oracle); non-trivial = accepted',
         'trusted': COMMON_TRUST,
-        'assumptions': ['collision-freeness of SHA-512/256 (hypothesis CR of the theorems)'],
+        'assumptions': ['none on the hash for the extracting theorems (verify_sound_extract …: accepted => claims true or an explicit collision among the hashed pairs and the forest nodes); the CR-form theorems (verify_sound, …) assume the idealisation CR and are corollaries'],
     },
     'C04': {
         'families': [{'name': 'verify', 'shards': {'quick': 4, 'thorough': 16}, 'seeds': {'quick': 1, 'thorough': 2}},
